@@ -125,6 +125,9 @@ def conv1d_schemas(tier: str, constraint: Any = None) -> List[Schema]:
     one, zero = sp.Integer(1), sp.Integer(0)
     out.append(Schema("conv1d[pointwise: kernel 1, stride 1, padding 0, groups 1]", dict(input=P("input", (N, C, L)), weight=P("weight", (Co, C, one)), bias=P("bias", (Co,)),
                                                                                        stride=one, padding=zero, dilation=one, groups=one, constraint=constraint)))
+    # stride / padding / dilation as 1-tuples: F.conv1d takes them, and torch.nn.Conv1d always passes them so
+    out.append(Schema("conv1d[stride, padding, dilation given as 1-tuples]", dict(input=P("input", (N, C, L)), weight=P("weight", (Co, Cg, k)), bias=P("bias", (Co,)),
+                                                                                  stride=(s,), padding=(p,), dilation=(dl,), groups=G, constraint=constraint)))
     pw = (hyper("p_out"), hyper("p_gin"), hyper("p_gpar"))
     out.append(Schema("conv1d[batched=True,bias=True,scale_power symbolic]", dict(input=P("input", (N, C, L)), weight=P("weight", (Co, Cg, k)), bias=P("bias", (Co,)),
                                                                                   stride=s, padding=p, dilation=dl, groups=G, constraint=constraint, scale_power=pw)))
@@ -218,6 +221,13 @@ def sdpa_schemas(tier: str) -> List[Schema]:
     # cross-attention / decoding with a KV cache: the query length differs from the key/value length
     Sq, Skv = D("Sq"), D("Skv")
     out.append(Schema("sdpa[cross-attention q_len != kv_len]", dict(query=P("query", (B, H, Sq, Dh)), key=P("key", (B, H, Skv, Dh)), value=P("value", (B, H, Skv, Dh)), is_causal=False, mult=mult, dropout_p=pd)))
+    # the value head size may differ from the query / key head size (F.scaled_dot_product_attention allows it):
+    # the softmax temperature is mult / (query head size)
+    Dv = D("Dv")
+    out.append(Schema("sdpa[value head size != query head size]", dict(query=P("query", (B, H, S, Dh)), key=P("key", (B, H, S, Dh)), value=P("value", (B, H, S, Dv)), is_causal=False, mult=mult, dropout_p=pd)))
+    # a single position (the first step of incremental decoding), causal and not
+    for causal in (True, False):
+        out.append(Schema(f"sdpa[sequence of one position,causal={causal}]", dict(query=P("query", (B, H, 1, Dh)), key=P("key", (B, H, 1, Dh)), value=P("value", (B, H, 1, Dh)), is_causal=causal, mult=mult, dropout_p=pd)))
     return out
 
 
